@@ -360,4 +360,5 @@ func main() {
 		return
 	}
 	vlib.Main(&vlib.Driver{Facts: facts, Exec: exec, Gen: gen})
+	sys.close() // removes the last world's working directory
 }
